@@ -13,9 +13,9 @@ R = lambda i: {"$": "r", "v": i}  # noqa: E731
 M = lambda j: {"$": "m", "v": j}  # noqa: E731
 PATH = lambda s: {"$": "path", "v": s}  # noqa: E731
 
-PROPS = {2: ["x", "y", "rho", "rho2", "phi"],
-         3: ["z", "theta", "eta", "costheta", "cottheta", "mag", "mag2"],
-         4: ["t", "t2", "tau", "tau2", "beta", "gamma", "rapidity"]}
+PROPS = {2: ["x", "y", "rho", "rho2", "phi", "neg2D"],
+         3: ["z", "theta", "eta", "costheta", "cottheta", "mag", "mag2", "neg3D"],
+         4: ["t", "t2", "tau", "tau2", "beta", "gamma", "rapidity", "neg4D"]}
 MOMPROPS = {2: ["px", "py", "pt", "pt2"],
             3: ["pz", "pseudorapidity", "p", "p2"],
             4: ["E", "e", "energy", "E2", "e2", "energy2", "M", "m", "mass", "M2", "m2", "mass2",
@@ -24,7 +24,7 @@ MOMPROPS = {2: ["px", "py", "pt", "pt2"],
 
 # method -> (min dimension of self, argument kinds)
 METHODS = {
-    "unit": (2, []), "neg2D": (2, []), "neg3D": (3, []), "neg4D": (4, []),
+    "unit": (2, []),
     "deltaphi": (2, ["vany"]), "rotateZ": (2, ["ang"]), "transform2D": (2, ["tr2"]),
     "is_parallel": (2, ["vsame", "?tol"]), "is_antiparallel": (2, ["vsame", "?tol"]),
     "is_perpendicular": (2, ["vsame", "?tol"]),
